@@ -5,34 +5,76 @@
            connection notification has been delivered to the instance
      2084  the health path gives up a claim only after the checker has reported unhealthy during the running term
      2085  an acquisition round never gives up a claim (it tests the claim before it steps back)
+     2086  the validation loop gives up a claim only on a validation read issued after the running term began (counted in issue
+           order, not by time stamps: several observations can share an instant) that timed out or was answered badly
+     2090  the payload of a Create or an Update reads the same with both decoders of the library
 
    Like the rules of Proto.v they are validated on every real trace by the oracle ([check_causes]). In an environment with no
    connection notification and no unhealthy result ([envQ]) they exclude those causes of demotion altogether
    (Proofs/SimCauses.v). *)
-From LE Require Import Base Ev World Proto.
+From LE Require Import Base Ev World GenGuards Proto.
 Open Scope Z_scope.
 
 Record caux := mkCA { ca_conn : list Z (* instances that have been sent a connection notification *);
-                      ca_sick : list Z (* instances whose checker has reported unhealthy in the running term *) }.
-Definition caux0 := mkCA [] [].
+                      ca_sick : list Z (* instances whose checker has reported unhealthy in the running term *);
+                      ca_n : Z          (* number of store calls issued so far *);
+                      ca_opno : amap Z  (* store call -> its number in issue order *);
+                      ca_tstart : amap Z (* instance -> number of store calls issued when its running term began *) }.
+Definition caux0 := mkCA [] [] 0 [] [].
+
+(* the call was issued after the running term of the instance began *)
+Definition in_term (a : caux) (i op : Z) : bool :=
+  match aget (ca_tstart a) i, aget (ca_opno a) op with
+  | Some s, Some n => s <? n
+  | _, _ => false
+  end.
+
+(* the map-decoder view of a value names instance i with token tk (what validateToken accepts) *)
+Definition good_map (b : base) (v i tk : Z) : bool :=
+  let y := vinfo_of b v in v_mok y && (v_hasid y =? 1) && (v_mid y =? i) && (v_hastok y =? 1) && (v_mtok y =? tk).
+
+(* both decoders of the library read the same identity and token from a payload *)
+Definition views_agree (b : base) (v : Z) : bool :=
+  let y := vinfo_of b v in v_sok y && v_mok y && (v_hasid y =? 1) && (v_mid y =? v_sid y) && (v_hastok y =? 1) && (v_mtok y =? v_stok y).
 
 Definition zmem (i : Z) (l : list Z) : bool := existsb (Z.eqb i) l.
 
 Definition capply (a : caux) (te : Z * ev) : caux :=
   match snd te with
-  | EApi i call _ _ _ _ _ => if call =? aConn then mkCA (i :: ca_conn a) (ca_sick a) else a
-  | EHealth i _ res _ _ => if zb res then a else mkCA (ca_conn a) (i :: ca_sick a)
-  | EFlag i fl _ _ _ => if zb fl then mkCA (ca_conn a) (filter (fun j => negb (j =? i)) (ca_sick a)) else a
+  | EApi i call _ _ _ _ _ => if call =? aConn then mkCA (i :: ca_conn a) (ca_sick a) (ca_n a) (ca_opno a) (ca_tstart a) else a
+  | EHealth i _ res _ _ => if zb res then a else mkCA (ca_conn a) (i :: ca_sick a) (ca_n a) (ca_opno a) (ca_tstart a)
+  | EFlag i fl _ _ _ =>
+      if zb fl then mkCA (ca_conn a) (filter (fun j => negb (j =? i)) (ca_sick a)) (ca_n a) (ca_opno a) (aset (ca_tstart a) i (ca_n a)) else a
+  | EIssue _ op _ _ _ _ _ _ _ => mkCA (ca_conn a) (ca_sick a) (ca_n a + 1) (aset (ca_opno a) op (ca_n a + 1)) (ca_tstart a)
   | _ => a
   end.
 
 Definition cause_rules (b : base) (a : caux) (te : Z * ev) : list rule :=
   match snd te with
-  | EFlag i fl cause _ _ =>
+  | EFlag i fl cause root _ =>
       let x := inst_of b i in
       when (negb (zb fl) && io_flag x && ((cause =? sGraceExpired) || (cause =? sVerifyFail)) && negb (zmem i (ca_conn a))) 2083 ++
       when (negb (zb fl) && io_flag x && (cause =? sHealthFail) && negb (zmem i (ca_sick a))) 2084 ++
-      when (negb (zb fl) && io_flag x && (cause =? sRound)) 2085
+      when (negb (zb fl) && io_flag x && (cause =? sRound)) 2085 ++
+      (* rule 2086: the validation loop gives up the claim only on the strength of a validation read issued after the running
+         term began that has not been answered within the read's time-out, or was answered with a record that is not the
+         instance's own, or with an error *)
+      when (negb (zb fl) && io_flag x && (cause =? sValFail) && (root =? 16) &&
+            negb (existsb (fun o => let q := snd o in
+                     (p_kind q =? kGet) && (p_inner q =? sValidate) && (p_i q =? i) && in_term a i (fst o) &&
+                     (if existsb (Z.eqb (fst o)) (b_done b) then
+                        match p_applied q with
+                        | Some (ok, _, v, _) => negb (ok =? oOk) || negb (good_map b v i (io_tok x))
+                        | None => false
+                        end ||
+                        match aget (b_rets b) (p_gid q) with
+                        | Some lr => (lr_kind lr =? kGet) && (lr_inner lr =? sValidate) && (10 <=? lr_rk lr)
+                        | None => false
+                        end
+                      else gen_val_read_timeout (ic_H (cfg_of b i)) <=? fst te - p_t q)) (b_pend b))) 2086
+  (* rule 2090: the payload of a Create or an Update reads the same with both decoders of the library *)
+  | EIssue i op kind inner root gid key val exp =>
+      when (((kind =? kCreate) || (kind =? kUpdate)) && negb (views_agree b val)) 2090
   | _ => []
   end.
 
